@@ -21,7 +21,7 @@ META = dict(
     property="C28",
     level="exploration",
     technique="random stan trees over a hostile alphabet + complete short-string enumeration per escaping context; flattened output re-parsed by expat and by html5lib and compared with an independent structure model; XMLString reload/re-flatten round trip",
-    level_text="Trees (depth <= 5) of Tag / text / bytes / Comment / CDATA / CharRef / slot / list / tuple / generator / Deferred (fired and unfired) / coroutine / IRenderable / Element renderers with content drawn from markup-significant tokens are flattened by the real flattenString; the bytes are parsed by expat (when every character is XML-representable and no comment contains '--', which XML cannot carry) and by html5lib 1.1 (when no CDATA node is present and tag names come from a set without HTML5 implied-end-tag / raw-text rules) and the resulting element/attribute/text/comment structure must equal the model's, modulo the parsers' own input normalisation (CR/CRLF->LF, XML attribute white space, HTML NUL handling) and modulo the documented comment rewriting ('-->' -> '--&gt;', trailing '-' gets a space). In addition all strings up to length 3-4 over a per-context alphabet are enumerated completely in text, attribute, comment and CDATA position. Sampled beyond that; no proof.",
+    level_text="Trees (depth <= 5) of Tag / text / bytes / Comment / CDATA / CharRef / slot / list / tuple / generator / Deferred (fired and unfired) / coroutine / IRenderable / Element renderers with content drawn from markup-significant tokens are flattened by the real flattenString; the bytes are parsed by expat (when every character is XML-representable and no comment contains '--', which XML cannot carry) and by html5lib 1.1 (when no CDATA node is present and tag names come from a set without HTML5 implied-end-tag / raw-text rules) and the resulting element/attribute/text/comment structure must equal the model's, modulo the parsers' own input normalisation (CR/CRLF->LF, XML attribute white space, HTML NUL handling) and modulo the documented comment rewriting ('-->' -> '--&gt;', trailing '-' gets a space). In addition all strings up to length 3-4 over a per-context alphabet are enumerated completely in text, attribute, comment and CDATA position, a nested same-name slot fill (innermost fill wins) is enumerated with all strings up to length 2, and single strings whose escaped form is 65535/65536/65537 bytes (the flattener's buffer size; plain, and reached through '<', '&', '\"' escaping) are placed in text, attribute, comment, CDATA, slot and after-Deferred position behind already buffered markup. Random trees re-fill slot names on descendants where the documented innermost-wins rule is unambiguous and carry a buffer-sized string in about 1 case of 20. Sampled beyond that; no proof.",
     level_note="Trusted: expat, vendored html5lib 1.1 (+webencodings, six) as the HTML5 reference, the ~80-line structure model in this file. CDATA is checked with XML only (in HTML content '<![CDATA[' is a bogus comment - a CDATA node is never safe there). Markup nested inside an attribute is checked by re-parsing the attribute value; attribute values that mix top-level strings with markup nodes are only checked for presence. Comments containing NUL are not given to html5lib (its 1.1 tokenizer mishandles NUL in the comment-start states). Bytes content is generated as valid UTF-8.",
     design_ref="§5 C28",
     rule="case = {root: node tree, late: order in which unfired Deferreds are fired}. non-trivial = at least one string in comment / CDATA / attribute / text position contains a markup-significant token (< > & quote -- ]]>) and at least one parser oracle ran; distinct by the canonical JSON of the case.",
@@ -149,6 +149,9 @@ def comment_norm(s):
     return s
 
 
+_MODEL_STATS = {}
+
+
 def model(node, env):
     k = node["k"]
     if k in ("text", "bytes"):
@@ -160,8 +163,14 @@ def model(node, env):
     if k == "charref":
         return [["r", node["n"]]]
     if k == "slot":
-        for frame in reversed(env):
+        for depth, frame in enumerate(reversed(env)):
             if frame is not None and node["name"] in frame:
+                # documented rule: the innermost enclosing fill wins
+                outer = [f for f in env[:len(env) - 1 - depth] if f is not None and node["name"] in f
+                         and f[node["name"]] is not frame[node["name"]]]
+                if outer:
+                    _MODEL_STATS["slot-use-with-same-name-filled-further-out"] = \
+                        _MODEL_STATS.get("slot-use-with-same-name-filled-further-out", 0) + 1
                 return model(frame[node["name"]], env)
         if node.get("default") is not None:
             return model(node["default"], env)
@@ -518,7 +527,13 @@ def sanitised(case):
 def run_case(ctx, case):
     from twisted.python.failure import Failure
     info = analyse(case)
+    _MODEL_STATS.clear()
     expected = model(case["root"], [])
+    for k_, v_ in _MODEL_STATS.items():
+        ctx.count(k_, v_)
+    biggest = max((len(n["s"]) for n in walk(case["root"]) if "s" in n), default=0)
+    if biggest >= 10000:
+        ctx.count("has-string>=10000-chars")
     res = flatten_case(case)
     if not res:
         ctx.violation("flatten-never-finished", case, "flattenString's Deferred did not fire after all Deferreds fired")
@@ -623,6 +638,8 @@ def tree(draw, profile):
     voids = HTML_VOID
     attrnames = ATTR_HTML if profile != "xml" else ATTR_HTML + ATTR_XML
     ctr = [0]
+    big = [None]        # decided at first use: at most one buffer-sized string per case, in 1 case of 20
+    tainted = set()     # slot names whose fill by an already flattened Tag may have leaked
 
     def integer(lo, hi):
         return lo + draw(_INT[hi - lo + 1])
@@ -634,6 +651,15 @@ def tree(draw, profile):
         return draw(_BOOL)
 
     def S():
+        if big[0] is None:
+            big[0] = 1 if integer(0, 19) == 0 else 0
+        if big[0] and integer(0, 5) == 0:
+            big[0] = 0
+            # one string whose escaped form is around the flattener's 64 KiB buffer
+            ch = pick(["x", "<", "&", '"', "é", ">"])
+            width = {"x": 1, "<": 4, "&": 5, '"': 6, "é": 2, ">": 4}[ch]
+            target = 65536 + pick([-1, 0, 1, 0, 4000])
+            return ch * (target // width) + "y" * pick([0, 1, 2, 3, 5])
         return "".join(pick(toks) for _ in range(integer(0, 5)))
 
     def subset(seq, maxn):
@@ -691,7 +717,8 @@ def tree(draw, profile):
         if c == "slot":
             if scope and integer(0, 3) > 0:
                 # filled by an ancestor; what it evaluates to was decided there
-                cands = [s for s in scope if (not stringy or s[1] == "s") and (not onlymarkup or s[1] == "m")]
+                cands = [s for s in scope if (not stringy or s[1] == "s") and (not onlymarkup or s[1] == "m")
+                         and s[0] not in tainted]
                 if cands:
                     nm = pick(cands)[0]
                     dflt = None
@@ -714,12 +741,22 @@ def tree(draw, profile):
         newscope = list(scope)
         slots = []
         fill = []
+        shadowed = []
         for _ in range(integer(0, 2)):
-            # every fill gets a name of its own: which fill a slot sees when two
-            # Tags fill the same name is slot scoping, not escaping (slot data is
-            # not popped after a Tag and leaks to later siblings - see the report)
-            ctr[0] += 1
-            sn = "s%d" % ctr[0]
+            # A fill either gets a name of its own or re-fills (shadows) a name an
+            # ancestor fills: inside this Tag the innermost fill wins by the
+            # documented rule.  Slot data is not popped after a plain Tag and leaks
+            # to whatever is flattened later (scoping, outside this property), so a
+            # shadowed name is "tainted" for everything generated after this Tag:
+            # it is not used there unless filled again.
+            free = [s_[0] for s_ in newscope if s_[0] not in shadowed and s_[0] not in [x[0] for x in slots + fill]]
+            if free and integer(0, 1) == 0:
+                sn = pick(free)
+                shadowed.append(sn)
+                newscope = [s_ for s_ in newscope if s_[0] != sn]
+            else:
+                ctr[0] += 1
+                sn = "s%d" % ctr[0]
             kind = pick(["s", "m", "x"])
             if kind == "s":
                 v = node(max(depth - 1, 0), (), True, True, True)
@@ -730,9 +767,21 @@ def tree(draw, profile):
             newscope.append((sn, kind))
             (fill if c == "render" and boolean() else slots).append([sn, v])
         newscope = tuple(newscope)
+        tainted.difference_update(shadowed)
         # a render tag's attributes are deep-cloned: keep them reusable
         attrs = [[an, attr_value(depth - 1, newscope, reusable or c == "render")] for an in subset(attrnames, 3)]
         kids = [node(depth - 1, newscope, False, reusable, noslot) for _ in range(integer(0, 3))]
+        for sn in shadowed:
+            # use the re-filled name inside this Tag: as a child, and in an
+            # attribute when its value is plain text
+            if sn in tainted:
+                continue        # a descendant filled it yet again: its frame may have leaked
+            if integer(0, 3) > 0:
+                kids.insert(integer(0, len(kids)), dict(k="slot", name=sn, default=None))
+            kind_ = [s_[1] for s_ in newscope if s_[0] == sn][0]
+            free_attr = [a for a in attrnames if a not in [x[0] for x in attrs]]
+            if kind_ == "s" and free_attr and boolean():
+                attrs.append([pick(free_attr), dict(k="slot", name=sn, default=None)])
         out = dict(k=c, name=nm, bn=boolean(), attrs=attrs, children=kids)
         if slots:
             out["slots"] = slots
@@ -741,6 +790,7 @@ def tree(draw, profile):
             out["mode"] = pick(["same", "same", "clear"])
             if fill:
                 out["fill"] = fill
+        tainted.update(shadowed)
         return out
 
     depth = integer(1, 4)
@@ -764,8 +814,43 @@ def small_cases(which, alphabet, maxlen):
             elif which == "attr-tag":
                 kid = dict(k="tag", name="span", attrs=[["title", dict(k="tag", name="foo", attrs=[["id", dict(k="text", s=s)]],
                                                                            children=[dict(k="text", s=s)])]], children=[])
+            elif which == "slot-nested":
+                # same slot names filled on the enclosing and on the nested element,
+                # used in the nested element's text and attribute
+                kid = dict(k="tag", name="section", attrs=[["id", dict(k="slot", name="a", default=None)]],
+                           slots=[["v", dict(k="text", s="outer" + s)], ["a", dict(k="text", s="outer-a")]],
+                           children=[
+                               dict(k="slot", name="v", default=None),
+                               dict(k="tag", name="span", attrs=[["title", dict(k="slot", name="a", default=None)]],
+                                    slots=[["v", dict(k="text", s=s)], ["a", dict(k="text", s=s + "'")]],
+                                    children=[dict(k="slot", name="v", default=None)])])
             yield dict(root=dict(k="tag", name="div", attrs=[], children=[dict(k="text", s="a"), kid, dict(k="text", s="b")]),
                        late="forward", profile="small-" + which)
+
+
+BIG_TARGETS = (65535, 65536, 65537)
+
+
+def big_cases():
+    """One string whose ESCAPED form sits at the flattener's buffer size
+    (BUFFER_SIZE = 65536), preceded by already buffered markup."""
+    def fit(ch, width, target):
+        return ch * (target // width) + "y" * (target % width)
+    for target in BIG_TARGETS:
+        kids = []
+        for ch, w in (("x", 1), ("<", 4), ("&", 5)):
+            kids.append(("text", dict(k="text", s=fit(ch, w, target))))
+        for ch, w in (("x", 1), ('"', 6), ("<", 4)):
+            kids.append(("attr", dict(k="tag", name="span", attrs=[["title", dict(k="bytes", s=fit(ch, w, target))]], children=[])))
+        kids.append(("comment", dict(k="comment", s=fit("x", 1, target))))
+        kids.append(("cdata", dict(k="cdata", s=fit("x", 1, target))))
+        kids.append(("slot", dict(k="tag", name="span", attrs=[], slots=[["v", dict(k="text", s=fit("<", 4, target))]],
+                                  children=[dict(k="slot", name="v", default=None)])))
+        kids.append(("after-deferred", dict(k="wrap", w="late", c=[dict(k="text", s="z"), dict(k="text", s=fit("x", 1, target))])))
+        for which, kid in kids:
+            yield dict(root=dict(k="tag", name="div", attrs=[["id", dict(k="text", s="i")]],
+                                 children=[dict(k="text", s="a"), kid, dict(k="text", s="b")]),
+                       late="forward", profile="big-" + which)
 
 
 SMALL = [
@@ -774,6 +859,7 @@ SMALL = [
     ("attr-tag", ['"', "<", ">", "&", "x"], 3),
     ("comment", ["-", "!", ">", "<", "x", "&"], 4),
     ("cdata", ["]", ">", "<", "&", "x", "["], 4),
+    ("slot-nested", ["<", '"', "&", "x"], 2),
 ]
 
 
@@ -789,6 +875,9 @@ def run(ctx):
         scope[which] = dict(alphabet=alpha, max_len=maxlen)
         if ctx.has_violation():
             return
+    if not enumerate_run(ctx, big_cases(), run_case):
+        return
+    scope["big"] = dict(escaped_sizes=list(BIG_TARGETS), positions=["text", "attr", "comment", "cdata", "slot", "after-deferred"])
     ctx.extra["exhaustive_small_scope"] = scope
     ctx.exhaustive = False      # the random trees below are sampled
     if ctx.thorough:
